@@ -825,7 +825,7 @@ VSattach(HFILEID     f,    /* IN: file handle */
         HGOTO_ERROR(DFE_BADACC, FAIL);
 
     /* convert file id to file record and check for validity */
-    file_rec = HAatom_object(f);
+    file_rec = HAfile_object(f);
     if (BADFREC(file_rec))
         HGOTO_ERROR(DFE_ARGS, FAIL);
 
@@ -1412,7 +1412,7 @@ VSdelete(int32 f, /* IN: file handle */
         HGOTO_ERROR(DFE_ARGS, FAIL);
 
     /* convert file id to file record and check for validity */
-    file_rec = HAatom_object(f);
+    file_rec = HAfile_object(f);
     if (BADFREC(file_rec))
         HGOTO_ERROR(DFE_ARGS, FAIL);
 
